@@ -238,6 +238,28 @@ func GenLZCfg(r *sim.Rng, n int, big bool, interop bool) LZCfg {
 	return c
 }
 
+// dictAwarePayload draws a payload whose structure is aligned with the
+// dictionary: X||X with |X| around the capacity, periods of capacity-1 /
+// capacity / capacity+1 with sparse mismatches, and data several times the
+// window (ring wrap, matches at exactly the maximum distance).
+func dictAwarePayload(r *sim.Rng, dictCap, bufSize int) sim.Payload {
+	if dictCap == 0 || dictCap > 1<<16 {
+		dictCap = 4096
+	}
+	d := dictCap + r.Range(-1, 1)
+	switch r.Intn(4) {
+	case 0:
+		return sim.Payload{Kind: "dup", Parts: []sim.Payload{{Kind: "prng", N: d, Seed: r.Uint64()}}}
+	case 1:
+		return sim.Payload{Kind: "dup", Parts: []sim.Payload{{Kind: "text", N: d, Seed: r.Uint64()}}}
+	case 2:
+		// period d, a few repetitions, with a mismatch every ~50 bytes: matches
+		// at the maximum distance directly followed by literals
+		return sim.Payload{Kind: "pmis", N: d * r.Range(2, 5), Seed: r.Uint64(), A: d}
+	}
+	return sim.Payload{Kind: "period", N: d*r.Range(2, 4) + r.Range(0, 300), Seed: r.Uint64(), A: d}
+}
+
 // maxPayloadFor bounds payload sizes so that a run stays cheap: BinaryTree
 // degenerates on repetitive data, tiny blocks allocate a coder per block.
 func maxPayloadFor(matcher byte, blockSize int64, dictCap int, want int) int {
